@@ -114,8 +114,10 @@ func (p *regexpPattern) createRegexp2() {
 	}
 	rx, err := compileRegexp2(p.src, p.multiline, p.dotAll, p.ignoreCase, p.unicode)
 	if err != nil {
-		// At this point the regexp should have been successfully converted to re2, if it fails now, it's a bug.
-		panic(err)
+		// The pattern was accepted by the re2 conversion, but the two engines do not reject exactly the same
+		// patterns (e.g. /(\p)/u). This runs when a match needs the backtracking engine after all (the subject
+		// is not valid UTF-16): report it as the SyntaxError it is, never as a Go error value.
+		panic(syntaxError(fmt.Sprintf("Invalid regular expression (regexp2): %s (%v)", p.src, err)))
 	}
 	p.regexp2Wrapper = rx
 }
